@@ -133,6 +133,24 @@ NEEDS = {
  'C16i': 'a user overload of all_is_win / all_is_broken / !is_defeat with arguments that returns, called in statement position',
  'C17i': 'write/writeln of `n is bool` with n non-zero and a zero low byte',
  'C18i': 'two different programs compiled in ONE process, the first defining an overload of a builtin name',
+ # seventh round (asked for three-ingredient changes)
+ 'C01j': 'two constant all-literal bool arrays differing only by trailing false elements within one packed byte (shared by directive text)',
+ 'C02j': 'a try body whose only defeat source is a defeat call in an if/while/for condition, a handler that exits differently, code after the try',
+ 'C03j': 'break/continue of a loop nested inside a try/stop body, then defeat later in the same try (defeat word reset)',
+ 'C04j': '`bytearr[g] = f()` where every assignment to the global g sits in a for-loop increment clause',
+ 'C05j': 'a global/literal array of >= 256 elements indexed by byte arithmetic (`c + 1`) that leaves 0..length-1',
+ 'C06j': 'a you-call or nested ?? under an `is` cast in the LEFT operand of ??',
+ 'C07j': 'an array literal with a byte element first, then a byte-coercible int, then a non-coercible int (first-of-each-type inference)',
+ 'C08j': 'a while loop as the last statement of a block that owns arrays, with an array declared in the loop body',
+ 'C09j': '`x is byte` as a truth value (if/while/and/or/not/defeat argument) with x a non-zero multiple of 256',
+ 'C10j': '--unchecked: `/` or `%` with an immediate dividend and the .length of a zero-length global array or empty literal as divisor',
+ 'C11j': 'more than 256 identical + or * operators in a row preceded on the same level by - or / or %',
+ 'C12j': 'about 940-1000 consecutive blank or comment-only lines (recursive skip_whitespace)',
+ 'C13j': 'a constant bool array indexed by a constant index with idx % 8 != 0, consumed by ==, is int, not, or an array literal',
+ 'C14j': '`E and false` / `E or true` (also via const variables) with a call-free E containing / % or an index that faults at run time',
+ 'C15j': '--unchecked: a string literal / const string element as the right operand with a computed left operand',
+ 'C16j': 'a while(true) whose body cannot complete and whose only continue sits inside a bare nested block, last in its function',
+ 'C18j': '--lint with `all_is_broken(); return <value>;` at the end of a block (statement kept only when linting)',
 }
 ALSO = {'C01d': ['C18'], 'C04c': ['C01'], 'C04d': ['C13'], 'C14c': [], 'C13c': ['C10'], 'C16d': ['C03'], 'C17d': ['C01'], 'C09c': ['C02'], 'C09d': ['C01'], 'C18b': ['C01'], 'C17': ['C04'], 'C15': ['C02'], 'C09b': ['C14'], 'C07b': [], 'C16': ['C03']}
 
